@@ -733,7 +733,9 @@ fn shuffle_worker<E: SimEnv>(seed: u64, work: &[(usize, u64)], t: &mut ShuffleTa
                         }
                         // exact checks on a sample of steps: same generator state + same batch size
                         // => same position map, whatever the contents; and the same state afterwards
-                        if s == 0 && done % 5 == 0 {
+                        if (done + s) % 7 == 0 {
+                            // the live environment is at step `s` with a populated book and possibly
+                            // mixed instruction kinds; the twin is fresh, empty and gets new orders only
                             let mut env2 = E::create(7, &ticks, step_size, true);
                             let mut xr2 = xr_before.clone();
                             let mut rng2 = Sm::derive(content ^ 0x77, 1);
@@ -757,7 +759,7 @@ fn shuffle_worker<E: SimEnv>(seed: u64, work: &[(usize, u64)], t: &mut ShuffleTa
                             let mut rng3 = Sm::derive(content ^ 0x77, 1);
                             if let Ok((pos3, _)) = shuffle_step(&mut env3, &mut xr3, &mut rng3, *n, false, content, &ticks) {
                                 t.replay_checks += 1;
-                                if pos3 != pos && !mixed {
+                                if pos3 != pos {
                                     fails.push(("same_state_different_permutation".into(), format!("n={} {:?} vs {:?}", n, pos, pos3)));
                                 }
                             }
@@ -798,7 +800,11 @@ fn shuffle_worker<E: SimEnv>(seed: u64, work: &[(usize, u64)], t: &mut ShuffleTa
 pub fn c15(ctx: &Ctx) -> i32 {
     let scale = ctx.tier.pick(1u64, 10u64);
     // (n, steps) work list; split into chunks for the worker threads
-    let plan: Vec<(usize, u64)> = vec![(2, 200_000), (3, 200_000), (4, 200_000), (5, 200_000), (6, 2_000_000), (7, 100_000), (8, 100_000), (9, 60_000), (10, 60_000), (11, 60_000), (12, 60_000), (13, 60_000), (16, 100_000), (24, 60_000), (32, 100_000), (48, 60_000), (64, 100_000)];
+    let mut plan: Vec<(usize, u64)> = vec![(2, 200_000), (3, 200_000), (4, 200_000), (5, 200_000), (6, 2_000_000), (7, 100_000), (8, 100_000)];
+    for n in 9..=24usize {
+        plan.push((n, if n == 16 { 100_000 } else { 50_000 }));
+    }
+    plan.extend([(32, 100_000), (48, 50_000), (64, 100_000)]);
     let mut chunks: Vec<(usize, usize, u64)> = Vec::new(); // (env kind, n, steps)
     for (n, steps) in &plan {
         let total = steps * scale;
@@ -957,7 +963,7 @@ pub fn c15(ctx: &Ctx) -> i32 {
     let cov = json!({
         "evaluations": steps,
         "distinct_nontrivial": d.len(),
-        "rule": "cases = seeded simulation steps (fresh Xoroshiro128** seed per 12 steps) whose n queued instructions all have a visible processed position (rank of the time-stamp within the batch: arrival time of new orders, end time of cancellations of active orders; contents vary independently of the shuffle generator); batch sizes 2..13, 16, 24, 32, 48, 64; separate tables for the single- and the multi-asset environment; distinct = distinct position maps (item -> processed position) observed; non-trivial = every recorded step (n >= 2)",
+        "rule": "cases = seeded simulation steps (fresh Xoroshiro128** seed per 12 steps) whose n queued instructions all have a visible processed position (rank of the time-stamp within the batch: arrival time of new orders, end time of cancellations of active orders; contents vary independently of the shuffle generator); batch sizes 2..24, 32, 48, 64; separate tables for the single- and the multi-asset environment; distinct = distinct position maps (item -> processed position) observed; non-trivial = every recorded step (n >= 2)",
         "samples": sample_perm,
         "tables": worst,
         "cells_tested": cells,
